@@ -51,6 +51,7 @@ FIXES = [
     ('23-C08-everyn-from-sorted-abscissae.patch', 'C08', 'C08.EVERYN'),
     ('24-C13-flegendre-floating-basis.patch', 'C13', 'C13.FLOAT-BASIS'),
     ('25-C08-bspline-floating-work-arrays.patch', 'C08', 'C08.FLOAT-WORK'),
+    ('26-C04-decbounds-exact-upper-edge.patch', 'C04', 'C04.GRID'),
 ]
 
 
